@@ -65,6 +65,10 @@ package main
 //@   call (http.ResponseWriter).WriteHeader
 //@     assert[C01:own-response] arg0 == w && resp == got
 //@     assert[C03:status] arg1 == resp.StatusCode
+// the reply is committed as chunked: only then does net/http send fields added after the body as trailers (whatever
+// the body length), and only then does it leave a missing Content-Type alone instead of sniffing one
+//@     assert[C03:reply-committed-as-chunked] in("Transfer-Encoding", asHeader(rwHeader[w])) && len(asHeader(rwHeader[w])["Transfer-Encoding"]) >= 1
+//@     |   && asHeader(rwHeader[w])["Transfer-Encoding"][len(asHeader(rwHeader[w])["Transfer-Encoding"]) - 1] == "chunked"
 //@     assert[C03:end-to-end-headers-relayed-with-their-values] forall_str(k, in(k, resp.Header) && !hop(k) ==> in(k, asHeader(rwHeader[w])) && asHeader(rwHeader[w])[k] == resp.Header[k])
 //@     assert[C03:nothing-but-end-to-end-headers-added] forall_str(k, in(k, asHeader(rwHeader[w])) && !preOf(2, in(k, asHeader(rwHeader[w]))) ==> (in(k, resp.Header) && !hop(k)) || k == "Transfer-Encoding")
 //@   call io.Copy
